@@ -91,6 +91,12 @@ class CallMixin(object):
         and isinstance(f.value.func, ast.Name) and f.value.func.id == 'super'):
       sargs = f.value.args
       cname = sargs[0].id if sargs else cx.cls
+      if sargs and cx.mod is not None:
+        for rn, ci in self.reg.classes.items():     # the class may be declared under another registry name
+          if ci.file == cx.mod.relpath and ci.path == sargs[0].id:
+            cname = rn
+      if cname not in self.reg.classes:
+        cname = cx.cls
       selfv = self.lookup(st, cx, sargs[1].id if len(sargs) > 1 else 'self')
       target = None
       for b in self.mro(cname)[1:]:
@@ -159,6 +165,8 @@ class CallMixin(object):
         return self.call_builtin(st, cx, callee.name, args, kwargs, node)
       if k == 'method':
         return self.call_method(st, cx, callee.recv, callee.name, args, kwargs, node)
+      if k == 'noop':
+        return iter([(st, NONE_V)])
       if k == 'stream':
         return self.stream_method(st, cx, callee.recv, callee.name, args, node)
       if k == 'structm':
